@@ -419,6 +419,8 @@ fn run_case(c: &Case, deadline: Duration, avoid_overcommit: bool) -> CaseResult 
     let kill_due = Duration::from_millis(c.kill_at_ms as u64);
     let mut issued: Vec<Started> = Vec::new();
     let mut cut_done = false;
+    // slots whose connection the querying node cut itself: data written to them may never have been read
+    let mut cut_slots: HashSet<usize> = HashSet::new();
     // With the outbound limit full, anything that frees a slot lets several own dials race for it; the loser is dropped
     // silently by the manager (known finding of C05) and its queries would wait forever: steer away while that is open.
     let keep_limit_full = c.limit_full && avoid_overcommit;
@@ -476,6 +478,7 @@ fn run_case(c: &Case, deadline: Duration, avoid_overcommit: bool) -> CaseResult 
                 } else {
                     let _ = q.probes[0].send(ProbeCmd::ForceClose(slot_peer[i]));
                     cut_done = true;
+                    cut_slots.insert(i);
                 }
             }
             QOp::Sleep { ms } => std::thread::sleep(Duration::from_millis(*ms as u64)),
@@ -589,7 +592,7 @@ fn run_case(c: &Case, deadline: Duration, avoid_overcommit: bool) -> CaseResult 
                     })
                 })
                 .collect();
-            let unseen_possible: HashSet<usize> = (0..n).filter(|i| matches!(c.slots[*i], Kind::Mute | Kind::Killed | Kind::Rogue)).collect();
+            let unseen_possible: HashSet<usize> = (0..n).filter(|i| matches!(c.slots[*i], Kind::Mute | Kind::Killed | Kind::Rogue) || cut_slots.contains(i)).collect();
             let (pool, need): (HashSet<usize>, usize) = if st.what == "put_record_to_peers" {
                 // Targets the node has no routing-table entry for are dropped by the command and the quorum is clamped to the
                 // number of candidates (documented in PutToTargetPeersContext::new): only the targets the node was told about
